@@ -14,6 +14,7 @@ import (
 	"grog/internal/output"
 	"grog/internal/output/handlers"
 	"grog/internal/proto/gen"
+	"grog/internal/verifhook"
 	"grog/internal/worker"
 	"os"
 	"path/filepath"
@@ -126,6 +127,7 @@ func (e *Executor) Execute(ctx context.Context) (dag.CompletionMap, error) {
 		if err != nil {
 			return dag.CacheMiss, err
 		}
+		verifhook.Emit("t.hash", "t", target.Label.String(), "key", target.ChangeHash)
 
 		// taskFunc will be run in the worker pool
 		taskFunc := e.getTaskFunc(ctx, target, binTools, outputIdentifiers)
@@ -220,6 +222,7 @@ func (e *Executor) getTaskFunc(
 			// logger.Warnf("failed to check target %s cache: %v", target.Label, err)
 		}
 		target.HasCacheHit = targetResult != nil
+		verifhook.Emit("t.lookup", "t", target.Label.String(), "key", target.ChangeHash, "found", targetResult != nil)
 		if logger.DebugEnabled() {
 			logger.Debugf("%s: loaded target result %s", target.Label, formatTargetResultForDebug(targetResult))
 		}
@@ -228,6 +231,7 @@ func (e *Executor) getTaskFunc(
 		if outputCheckErr != nil {
 			logger.Debugf("running target due to output check error: %v", outputCheckErr)
 		}
+		verifhook.Emit("t.check", "t", target.Label.String(), "pass", outputCheckErr == nil, "n", len(target.OutputChecks))
 
 		// Check if the target is tainted
 		isTainted, taintedErr := e.taintCache.IsTainted(ctx, target.Label)
@@ -238,6 +242,7 @@ func (e *Executor) getTaskFunc(
 		if isTainted {
 			logger.Debugf("running target %s due to being tainted", target.Label)
 		}
+		verifhook.Emit("t.taint", "t", target.Label.String(), "tainted", isTainted)
 
 		// Process a cache hit if:
 		// - The target result was loaded (HasCacheHit)
@@ -248,6 +253,7 @@ func (e *Executor) getTaskFunc(
 			if e.loadOutputsMode == config.LoadOutputsMinimal {
 				// Important: Set the output hash so that descendants can compute their change hashes
 				target.OutputHash = targetResult.OutputHash
+				verifhook.Emit("t.hit", "t", target.Label.String(), "mode", "minimal", "outhash", target.OutputHash)
 				update(worker.Status(fmt.Sprintf("%s: cache hit. skipped loading %s because load_outputs=minimal.", target.Label, console.FCountOutputs(len(target.AllOutputs())))))
 				logger.Debugf("%s: cache hit. skipped loading %s because load_ outputs=minimal", target.Label, console.FCountOutputs(len(target.AllOutputs())))
 				return dag.CacheHit, nil
@@ -263,6 +269,7 @@ func (e *Executor) getTaskFunc(
 			cacheStart := time.Now()
 			loadingErr := e.registry.LoadOutputs(ctx, target, targetResult, progress)
 			target.CacheTime += time.Since(cacheStart)
+			verifhook.Emit("t.load", "t", target.Label.String(), "ok", loadingErr == nil)
 			if loadingErr != nil {
 				// Don't return so that we instead break out and continue executing the target
 				logger.Errorf("%s re-running due to output loading failure: %v", target.Label, loadingErr)
@@ -276,6 +283,7 @@ func (e *Executor) getTaskFunc(
 						logger.Infof("%s %s (cached) in %.1fs", target.Label, color.New(color.FgGreen).Sprintf("PASSED"), executionTime)
 					}
 				}
+				verifhook.Emit("t.hit", "t", target.Label.String(), "mode", "all", "outhash", target.OutputHash)
 				return dag.CacheHit, nil
 			}
 		}
@@ -294,6 +302,7 @@ func (e *Executor) getTaskFunc(
 			}
 		}
 
+		verifhook.Emit("t.exec", "t", target.Label.String())
 		return e.executeTarget(ctx, target, binToolPaths, outputIdentifiers, update, isTainted)
 	}
 }
@@ -329,7 +338,9 @@ func (e *Executor) executeTarget(
 	if target.Command != "" {
 		update(worker.Status(fmt.Sprintf("%s: \"%s\"", target.Label, target.CommandEllipsis())))
 		logger.Debugf("running target %s: %s", target.Label, target.CommandEllipsis())
+		verifhook.Emit("t.cmd.start", "t", target.Label.String())
 		err = executeTarget(ctx, target, binToolPaths, outputIdentifiers, e.streamLogsToggle.Enabled())
+		verifhook.Emit("t.cmd.end", "t", target.Label.String(), "ok", err == nil, "canceled", errors.Is(err, context.Canceled))
 	} else {
 		logger.Debugf("skipped target %s due to no command", target.Label)
 	}
@@ -352,6 +363,7 @@ func (e *Executor) executeTarget(
 
 	// Run output checks again to see if they match now
 	if outputCheckErr := runOutputChecks(ctx, target, binToolPaths, outputIdentifiers); outputCheckErr != nil {
+		verifhook.Emit("t.recheck", "t", target.Label.String(), "pass", false)
 		return dag.CacheMiss, outputCheckErr
 	}
 
@@ -373,13 +385,16 @@ func (e *Executor) executeTarget(
 	logger.Debugf("writing outputs for target %s", target.Label)
 	update(worker.Status(fmt.Sprintf("%s complete. writing outputs...", target.Label)))
 	err = e.OnTargetComplete(ctx, target, update)
+	verifhook.Emit("t.stored", "t", target.Label.String(), "ok", err == nil, "outhash", target.OutputHash)
 	if err != nil {
 		return dag.CacheMiss, fmt.Errorf("build completed but failed to write outputs to cache for target %s:\n%w", target.Label, err)
 	}
 
 	if isTainted {
 		go func() {
+			verifhook.Gate("taint.clear", "t", target.Label.String())
 			err = e.taintCache.Clear(ctx, target.Label)
+			verifhook.Emit("t.taint.clear", "t", target.Label.String(), "ok", err == nil)
 			if err != nil {
 				logger.Errorf("Failed to remove taint from target %s: %v", target.Label, err)
 			}
@@ -436,6 +451,7 @@ func (e *Executor) OnTargetComplete(ctx context.Context, target *model.Target, u
 	defer func() {
 		target.CacheTime += time.Since(cacheStart)
 	}()
+	verifhook.Emit("t.result.write", "t", target.Label.String(), "key", targetResult.ChangeHash, "outhash", targetResult.OutputHash, "outputs", len(targetResult.Outputs))
 
 	return e.targetCache.Write(ctx, targetResult)
 }
@@ -455,6 +471,7 @@ func (e *Executor) LoadDependencyOutputs(
 	)
 	for _, dep := range e.graph.GetTargetDependencies(target) {
 		localDep := dep
+		verifhook.Emit("t.loaddep", "t", target.Label.String(), "d", localDep.Label.String())
 		// Function to re-run a dependency in case we
 		rerunDependency := func() error {
 			binTools, binToolErr := e.getBinToolPaths(localDep)
@@ -465,6 +482,7 @@ func (e *Executor) LoadDependencyOutputs(
 			outputIdentifiers := e.getDependencyOutputIdentifiers(localDep)
 
 			update(worker.Status(fmt.Sprintf("%s: re-running dependency %s (load_outputs_mode=minimal).", target.Label, localDep.Label)))
+			verifhook.Emit("t.rerundep", "t", target.Label.String(), "d", localDep.Label.String())
 			_, executionErr := e.executeTarget(ctx, localDep, binTools, outputIdentifiers, update, false)
 			if executionErr != nil {
 				return executionErr
